@@ -17,6 +17,14 @@ def run(ctx):
         common.proofs(ctx, PROPS_V, THEOREMS)
     else:
         ctx.proof_ok, ctx.proof_info = True, {}
+    # application level: the histories of the main generator (valid and invalid transactions of every
+    # type sent by accounts that ARE voters, validators, stake owners ... at the right moments) must
+    # contain no panicking call, and the model (whose Panic results are the code's panic sites) agrees
+    res = common.app_check(ctx, "C09", None, THEOREMS, codes=[10, 11, 12], pred="P_C09", extra_assume=assume,
+                           nontrivial_rule="P_C09: no BeginBlock / DeliverTx / EndBlock of the history panicked (a Go panic of an ABCI call is captured by the harness and recorded as a Panic answer)")
+    if res is None:
+        return
+    app_cov = json.load(open(os.path.join(V.VERIF, "evidence", "C09.json")))["coverage"]
     binp, out = V.go_build(ctx)
     if binp is None:
         V.violation(ctx, "harness-build", {"kind": "harness-does-not-build", "detail": out[-3000:]}, nofail=True)
@@ -57,4 +65,5 @@ def run(ctx):
         "follow_ups_ok": "%s/%s" % (hs.get("FollowUpOK"), hs.get("FollowUps")),
         "governance_scenarios": {k: (v or "no panic") for k, v in gov.items() if not k.endswith(":trace")},
         "samples": [k for k in list(kinds)[:12]], "exhaustive": False,
+        "application_level": {k: app_cov.get(k) for k in ("traces_validated_against_impl", "blocks", "transactions", "succeeded", "failed", "distribution", "corpus")},
     }, assume)
